@@ -212,7 +212,9 @@ func siteCheck(cs siteCase, ctx *core.Ctx) core.Outcome {
 	restore := func(f *dst.File) (string, string) {
 		var buf bytes.Buffer
 		var err error
-		if p := guard(func() { err = decorator.NewRestorerWithImports("example.com/local", simple.New(siteNames)).Fprint(&buf, f) }); p != "" {
+		if p := guard(func() {
+			err = decorator.NewRestorerWithImports("example.com/local", simple.New(siteNames)).Fprint(&buf, f)
+		}); p != "" {
 			return "", "panic: " + p
 		}
 		if err != nil {
